@@ -171,13 +171,24 @@ def render(n, out):
             out.append("@")
         elif k["op"] in ("lit", "ref"):
             render(k, out)
+        elif k["op"] == "grp" and k["mode"] in ("opt", "star"):
+            # a capture applied directly to an optional / repeated group: the bracket forms @[ x ] and @{ x }
+            out.append("[" if k["mode"] == "opt" else "{")
+            render(k["kid"], out)
+            out.append("]" if k["mode"] == "opt" else "}")
         else:
             if not (k["op"] == "grp" and k["mode"] == "once"):
                 raise ValueError("cap kid must be atom or once-group")
             render(k, out)
     elif op == "neg":
         out.append("~")
-        render(n["kid"], out)
+        if n["kid"]["op"] == "grp" and n["kid"]["mode"] != "once":
+            # in the tag language a modifier after ~x applies to the negation; ~(x+) needs its own parentheses
+            out.append("(")
+            render(n["kid"], out)
+            out.append(")")
+        else:
+            render(n["kid"], out)
     elif op == "look":
         out.append("(?!" if n["neg"] else "(?=")
         render(n["kid"], out)
